@@ -1,8 +1,8 @@
 SPECIFICATION Spec
 CONSTANTS
   MaxParts = 4
-  NV4 = 18
-  MaxSide = 3
+  NV4 = 14
+  MaxSide = 2
   NV6 = 11
   EmitB = TRUE
 INVARIANTS HostInv NumberMeansV4 EmitBehaviour
